@@ -537,6 +537,8 @@ def compare_run(run, owned):
             tags = []
         elif r.ws[0] == 'restart':
             tags = [] if r.impl == r.model else ['cfg.restart']
+        elif r.ws[0] == 'dircheck':
+            tags = [] if r.impl == r.model else ['cfg.dir']
         elif r.ws[0] in ('req', 'prefill', 'seq', 'illegal', 'fault', 'crash', 'pool'):
             tags = []
         elif r.ws[0] == 'http':
